@@ -418,7 +418,7 @@ func (ex *Exec) inline(fn *ssa.Function, args []Val, bindings []ssa.Value, r Ter
 	ex.top.inlineN++
 	sub := &Exec{v: ex.v, c: ex.c, fn: fn, fname: fn.String(), prefix: fmt.Sprintf("%si%d_", ex.prefix, ex.top.inlineN),
 		vals: map[ssa.Value]Val{}, obls: ex.obls, depth: ex.depth + 1, stack: append(append([]string{}, ex.stack...), fn.String()),
-		top: ex.top, decAtHeader: map[*ssa.BasicBlock]Val{}, entryEnv: nil}
+		top: ex.top, decAtHeader: map[*ssa.BasicBlock]Val{}, headerEnv: map[*ssa.BasicBlock]*Env{}, entryEnv: nil}
 	sub.fc = ex.contractFor(fn) // may carry loop invariants for an inlined function
 	for i, p := range fn.Params {
 		a := args[i]
